@@ -35,6 +35,7 @@ def parseOpts (s : String) : Option Opts :=
 
 def encOutcome : Outcome → String
   | .binderError => "binder"
+  | .bootstrapError => "bootstrap"
   | .ok s => s!"ok,{encOptStr s.database},{encOptStr s.schema},{encBool s.databaseSet},{encBool s.schemaSet}"
 
 def encSchemas (l : List (Name × Content)) : String :=
@@ -60,7 +61,10 @@ def handle : List String → String
     | none => "bad-opts"
     | some os =>
       let w : World := { attached := parseAttached att, disk := parseDisk disk, paths := [] }
-      s!"impl={encRun (runAll connect os w)}\tspec={encRun (runAll Spec.connect os w)}\tshipped={encRun (runAll connectShipped os w)}"
+      let impl := runAll connect os w
+      -- region of the known finding: some connect of the run has to attach a database named like a built-in schema
+      let key := if impl.1.any (fun o => o == Outcome.bootstrapError) then "C14/auto-create-db-named-like-builtin-schema" else "-"
+      s!"impl={encRun impl}\tspec={encRun (runAll Spec.connect os w)}\tshipped={encRun (runAll connectShipped os w)}\tfinding={key}"
   | _ => "bad-op"
 
 end Fs.Drv.Connect
